@@ -82,6 +82,30 @@ def run_property(pid, tier='quick', repo='/repo', configs=None, emit=True, targe
                'analysis error: %s\n%s' % (e, traceback.format_exc()[-1500:]))
     floor = getattr(mod, 'FLOOR', 1)
     n = len(ctx.obs)
+    # thorough tier: the same rule table evaluated on the other compiled configurations
+    # (the other body of every cfg twin), unless the module handles configurations itself
+    if tier == 'thorough' and not hasattr(mod, 'CONFIGS'):
+        for c in want:
+            if c == 'D':
+                continue
+            sub = Ctx(pid, tier, dict(progs, D=progs[c]), infos, repo)
+            try:
+                mod.run(sub)
+            except AnchorError as e:
+                sub.ob(pid + '.anchor', 'ANCHOR', False, None, None, 'anchor missing: %s' % e)
+            except Exception as e:
+                sub.ob(pid + '.internal', 'INTERNAL', False, None, None, 'analysis error: %s\n%s' % (e, traceback.format_exc()[-1500:]))
+            skip = set(getattr(mod, 'CONFIG_SPECIFIC', {}).get(c, ()))
+            for o in sub.obs:
+                if any(o['id'].startswith(x) for x in skip):
+                    continue
+                o = dict(o)
+                o['id'] = '[%s]%s' % (c, o['id'])
+                o['key'] = '[%s]%s' % (c, o['key'])
+                ctx.obs.append(o)
+            if len(sub.obs) < floor:
+                ctx.ob('%s.floor[%s]' % (pid, c), 'FLOOR', False, None, None,
+                       'config %s: only %d rule instances evaluated, floor is %d' % (c, len(sub.obs), floor))
     if n < floor:
         ctx.ob(pid + '.floor', 'FLOOR', False, None, None,
                'only %d rule instances evaluated, floor is %d (a rule matched nothing)' % (n, floor))
@@ -95,6 +119,10 @@ def run_property(pid, tier='quick', repo='/repo', configs=None, emit=True, targe
                 known_hits.append((o, k))
             else:
                 violations.append(o)
+    selftest = None
+    if tier == 'thorough' and emit and os.environ.get('VERIF_NO_SELFTEST') != '1':
+        selftest = run_selftest(pid)
+        ctx.selftest = selftest
     wall = time.time() - t0
     if emit:
         os.makedirs(os.path.join(EVID, 'violations'), exist_ok=True)
@@ -117,7 +145,25 @@ def run_property(pid, tier='quick', repo='/repo', configs=None, emit=True, targe
             pid, tier, ','.join(want), len(ctx.obs), okc, len(known_hits), len(violations), wall))
         for l in lines:
             print(l)
+        if selftest:
+            print('selftest: %s' % json.dumps(selftest)[:600])
     return ctx, violations, known_hits
+
+
+def run_selftest(pid):
+    """thorough tier: every seeded variant of this property (one broken rule
+    instance each, on a scratch copy outside /repo and /verif) must be reported."""
+    try:
+        from selftest import run as st
+        jobs = int(os.environ.get('VERIF_SELFTEST_JOBS', '4'))
+        res = st.run_all(prop=pid, jobs=jobs, own_only=True)
+    except Exception as e:
+        return {'error': '%s' % e}
+    out = {'variants': len(res), 'applied': sum(1 for r in res if r['status'] in ('detected', 'missed')),
+           'detected': sum(1 for r in res if r['status'] == 'detected'),
+           'missed': [r['id'] for r in res if r['status'] == 'missed'],
+           'skipped': [{'id': r['id'], 'why': r.get('detail', '')[:120]} for r in res if r['status'] in ('skipped', 'builderror', 'error')]}
+    return out
 
 
 def write_evidence(pid, tier, seed, ctx, mod, violations, known_hits, wall, infos):
@@ -158,6 +204,7 @@ def write_evidence(pid, tier, seed, ctx, mod, violations, known_hits, wall, info
             'unlisted_violations': [{'id': o['id'], 'key': o['key'], 'where': o['where'], 'detail': o['detail'][:300]}
                                     for o in violations],
             'floor': getattr(mod, 'FLOOR', 1),
+            'selftest': getattr(ctx, 'selftest', None),
             'notes': ctx.notes,
             'exhaustive': False,
         },
